@@ -27,6 +27,9 @@ pub struct Machine {
   pub shape: String,
   /// transition operator used for every branch: "->" or the asynchronous "~>"
   pub arrow: &'static str,
+  /// write the branches of a state as several arms for that state (the last branch in an arm of its own): a state whose first arm
+  /// has no guard that holds must fall through to its next arm
+  pub split: bool,
 }
 #[derive(Clone, Debug, PartialEq)]
 pub enum Ill { None, UndeclaredTarget, StateWithoutArm, WrongArgKind, NoStartState }
@@ -49,6 +52,12 @@ pub fn render(m: &Machine, arg: &str) -> String {
   for (i, arm) in m.arms.iter().enumerate() {
     if arm.len() == 1 && arm[0].g == G::Always {
       s.push_str(&format!("  :{}(n) {} :{}({})\n", m.states[i], m.arrow, sname(m, arm[0].target), utext(&arm[0].upd)));
+    } else if m.split && arm.len() >= 2 {
+      let (head, last) = (&arm[..arm.len() - 1], &arm[arm.len() - 1]);
+      s.push_str(&format!("  :{}(n)\n", m.states[i]));
+      for (bi, b) in head.iter().enumerate() { s.push_str(&format!("    {} {} {} :{}({})\n", if bi + 1 == head.len() { "└" } else { "├" }, gtext(&b.g), m.arrow, sname(m, b.target), utext(&b.upd))); }
+      if last.g == G::Always { s.push_str(&format!("  :{}(n) {} :{}({})\n", m.states[i], m.arrow, sname(m, last.target), utext(&last.upd))); }
+      else { s.push_str(&format!("  :{}(n)\n    └ {} {} :{}({})\n", m.states[i], gtext(&last.g), m.arrow, sname(m, last.target), utext(&last.upd))); }
     } else {
       s.push_str(&format!("  :{}(n)\n", m.states[i]));
       for (bi, b) in arm.iter().enumerate() { s.push_str(&format!("    {} {} {} :{}({})\n", if bi + 1 == arm.len() { "└" } else { "├" }, gtext(&b.g), m.arrow, sname(m, b.target), utext(&b.upd))); }
@@ -92,14 +101,16 @@ pub fn machines(tier: Tier) -> Vec<Machine> {
       for m in &menus { let (a, n) = &m[x % m.len()]; x /= m.len(); arms.push(a.clone()); shape.push(*n); }
       for out_add in [0u64, 100] {
         if out_add == 100 && idx % 3 != 0 { continue; }
-        out.push(Machine { states: NAMES[..k].to_vec(), arms: arms.clone(), out_add, ill: Ill::None, shape: format!("{}x[{}]", k, shape.join(",")), arrow: "->" });
-        if out_add == 0 { out.push(Machine { states: NAMES[..k].to_vec(), arms: arms.clone(), out_add, ill: Ill::None, shape: format!("{}x[{}]~>", k, shape.join(",")), arrow: "~>" }); }
+        out.push(Machine { states: NAMES[..k].to_vec(), arms: arms.clone(), out_add, ill: Ill::None, shape: format!("{}x[{}]", k, shape.join(",")), arrow: "->", split: false });
+        // the same machine with the branches of every state spread over several arms of that state
+        if out_add == 0 && k <= 2 && arms.iter().any(|a| a.len() >= 2) { out.push(Machine { states: NAMES[..k].to_vec(), arms: arms.clone(), out_add, ill: Ill::None, shape: format!("{}x[{}]+arms-split", k, shape.join(",")), arrow: "->", split: true }); }
+        if out_add == 0 { out.push(Machine { states: NAMES[..k].to_vec(), arms: arms.clone(), out_add, ill: Ill::None, shape: format!("{}x[{}]~>", k, shape.join(",")), arrow: "~>", split: false }); }
       }
       idx += stride;
     }
   }
   // ill-formed variants of a few base machines
-  let base: Vec<Machine> = out.iter().filter(|m| m.states.len() <= 2 && m.out_add == 0).step_by(tier.pick(9, 3)).cloned().collect();
+  let base: Vec<Machine> = out.iter().filter(|m| m.states.len() <= 2 && m.out_add == 0 && !m.split).step_by(tier.pick(9, 3)).cloned().collect();
   // (both transition operators are in `base`, so every ill-formed variant exists with -> and with ~>)
   for b in base {
     let mut m = b.clone(); m.ill = Ill::UndeclaredTarget; m.arms[0][0].target = 98; m.shape = format!("{}+undeclared-target", b.shape); out.push(m);
@@ -384,7 +395,7 @@ impl Check for C17 {
     rep.cov("traces_validated_against_impl", json!(rep.out.nontrivial));
     let _ = visited;
     rep.cov("bounds", json!({"machines": n, "working_states_max": tier.pick(2, 3), "inputs": format!("0..={}", tier.pick(5, 7)), "max_steps_for_runs": 60, "limit_values": [1, 2, 3, 5, 8]}));
-    rep.rule = format!("{} machines: every combination of per-state arm shapes (direct transition to every state, countdown, overlapping guards where the first passing guard must win, a shadowed second guard, step-two, a state that is stuck for small payloads) for 1..2 working states (and a deterministic 1-in-7 thinning for 3 working states in the thorough tier) with one u64 payload and an output state, each run on every input 0..{}; \
+    rep.rule = format!("{} machines: every combination of per-state arm shapes (direct transition to every state, countdown, overlapping guards where the first passing guard must win, a shadowed second guard, step-two, a state that is stuck for small payloads) for 1..2 working states, each also with the branches of a state spread over several arms of that state (a guarded arm none of whose guards holds must fall through to the next arm of the state) (and a deterministic 1-in-7 thinning for 3 working states in the thorough tier) with one u64 payload and an output state, each run on every input 0..{}; \
       every machine with the synchronous -> and the asynchronous ~> transition operator; a vector-payload family (spread patterns [x … y], [… y], [x …], [a b c] whose state is re-entered with every arrangement of the bound names, k and a constant); a two-payload family (:S(p, q) with every ordered selection of 1..2 (3 in the thorough tier, thinned) of six guarded branches that subtract, move or swap the fields, three outputs, on every pair of inputs 0..3 / 0..4, plus calls with one argument and with f64 arguments); ill-formed variants (undeclared target, declared state without an arm, f64 argument, undeclared start state); the run is compared state by state (name and payload, read from the interpreter's own step trace events) and in its result with a reference simulator; the transition limit is checked at max_steps in {{1,2,3,5,8}}. states = runs judged, transitions = runs executed (each run is one trace validated against the implementation)", n, tier.pick(5, 7));
     rep.assumptions = vec!["a configuration in which no guard holds, and payload underflow, are not judged beyond no panic/hang".into(), "the exact off-by-one of the transition limit is not judged (limit >= transitions+2 must succeed, limit < transitions must fail)".into()];
     if rep.out.sets.get("terminating_shapes").map(|s| s.len()).unwrap_or(0) < 20 { rep.vacuity.push("fewer than 20 machine shapes terminated with a compared trace".into()); }
